@@ -216,6 +216,11 @@ class World:
         # a hang of the daemon (reported like an escaping exception), and must not hang the check
         # The bound is on CPU time of this process (a busy machine must not turn a slow iteration into an alarm); a much
         # longer wall-clock bound catches an iteration that sleeps instead of spinning.
+        # (no garbage collection inside the watched window: in a search process that holds a million worlds a full collection
+        # takes seconds of CPU time, which is the harness's and not the daemon's)
+        import gc
+        gc_was = gc.isenabled()
+        gc.disable()
         try:
             old = signal.signal(signal.SIGALRM, _wedged)
             old_v = signal.signal(signal.SIGVTALRM, _wedged)
@@ -243,6 +248,8 @@ class World:
                 signal.signal(signal.SIGVTALRM, old_v)
             self.step_dh_calls = CTX.dh_calls
             self._leave()
+            if gc_was:
+                gc.enable()
             if self.all_logs is not None:
                 self.all_logs.extend(self.step_logs)
 
